@@ -103,6 +103,7 @@ structure SInv (P : Params) (s : Srv) : Prop where
   none_inv : s.te = false → s.fr = .none → s.stored = (if P.dropExtras then [] else payload s)
   fin_ok : s.fin = some .ok → s.whole = true
   fin_bad : s.fin = some .badLength → s.whole = false
+  nte_chunked : s.te = false → s.fr = .chunked → s.stored = []
 
 theorem sinv_init (P : Params) (fr : OFr) (te : Bool) : SInv P (Srv.init fr te) := by
   constructor <;> simp [Srv.init, payload, decOf, feedAll, Run.init]
@@ -129,7 +130,7 @@ theorem sinv_finish {P : Params} {s : Srv} (h : SInv P s) : SInv P (finish s) :=
     · simp [hw] at hfin
     · show s.whole = false
       simpa using hw
-
+  · exact h.nte_chunked
 
 theorem take_take_sub (seg : Bytes) (pl n extras : Nat) (he : extras = pl + seg.length - (pl - n) - n) :
     seg.take (seg.length - extras) = seg.take (n - pl) := by
@@ -201,7 +202,12 @@ theorem sinv_writeBody {P : Params} {s : Srv} (h : SInv P s) (hte : s.te = false
     cases hd : P.dropExtras <;> simp [hd] at this ⊢ <;> simp [this]
   · intro hf; rw [h4] at hf; simp [hfin] at hf
   · intro hf; rw [h4] at hf; simp [hfin] at hf
-
+  · intro _ hfr
+    rw [h2] at hfr
+    simp only at hfr
+    unfold writeBody
+    simp only [hfr]
+    exact h.nte_chunked hte hfr
 
 theorem feed_of_not_more (relaxed : Bool) (capOf : Nat → Nat) (r : Run) (seg : Bytes) (h : r.verdict ≠ .more) :
     feed relaxed capOf r seg = r := by
@@ -246,6 +252,7 @@ theorem sinv_decodeBody {P : Params} {s : Srv} (h : SInv P s) (hte : s.te = true
       by_cases hw : s.whole = true
       · simp [hw] at hf
       · simpa using hw
+    · intro ht'; simp [finish, hte] at ht'
   · -- last-chunk seen
     rename_i hv
     constructor
@@ -260,6 +267,7 @@ theorem sinv_decodeBody {P : Params} {s : Srv} (h : SInv P s) (hte : s.te = true
     · intro ht'; simp [hte] at ht'
     · intro hf; simp [hfin] at hf
     · intro hf; simp [hfin] at hf
+    · intro ht'; simp [hte] at ht'
   · -- more data wanted (or trailers too large)
     rename_i hnr hnd
     constructor
@@ -278,7 +286,7 @@ theorem sinv_decodeBody {P : Params} {s : Srv} (h : SInv P s) (hte : s.te = true
     · intro ht'; simp [hte] at ht'
     · intro hf; simp [hfin] at hf
     · intro hf; simp [hfin] at hf
-
+    · intro ht'; simp [hte] at ht'
 
 theorem sinv_processBody {P : Params} {s : Srv} (h : SInv P s) (hfin : s.fin = none) (seg : Bytes) (e : Bool)
     (he : s.eof = true → e = true) :
@@ -332,7 +340,11 @@ theorem sinv_srvStep {P : Params} {s : Srv} (h : SInv P s) (e : SEv) : SInv P (s
         · exact h.none_inv
         · exact h.fin_ok
         · exact h.fin_bad
+        · exact h.nte_chunked
       exact sinv_finish this
+
+theorem body_stored_of_chunked_no_te {P : Params} {s : Srv} (h : SInv P s) (hte : s.te = false) (hfr : s.fr = .chunked) :
+    s.stored = [] := h.nte_chunked hte hfr
 
 /-- the store is append-only -/
 theorem srvStep_stored_ext {P : Params} {s : Srv} (h : SInv P s) (e : SEv) : ∃ t, (srvStep P s e).stored = s.stored ++ t := by
@@ -395,17 +407,12 @@ structure WF (x : Sys) : Prop where
   close_ka : x.c.fr = .close → x.c.keepalive = false
   head_none : x.c.headOnly = true → x.c.fr = .none
 
-/-- the body framing of what was written to the client -/
-def wireOf (fr : CFr) (pieces : List Bytes) (last : Bool) : Bytes :=
-  if fr = .chunked then (pieces.map packChunk).flatten ++ (if last then lastChunkBytes else []) else pieces.flatten
-
 /-- the Content-Range end test of socketState() is out of play -/
 def crOff (P : Params) (c : Cli) : Prop := c.crLen = none ∨ crApplies P c = false
 
 structure CCore (P : Params) (x : Sys) : Prop where
   off_le : x.c.offset ≤ x.s.stored.length
   body_eq : x.c.pieces.flatten = x.s.stored.take x.c.offset
-  wire_eq : x.c.wire = wireOf x.c.fr x.c.pieces x.c.lastChunk
   pieces_ok : ∀ p ∈ x.c.pieces, p ≠ [] ∧ p.length ≤ max P.reqBuf 1
   last_ok : x.c.lastChunk = true → x.s.fin = some .ok ∧ x.c.offset = x.s.stored.length ∧ x.c.fr = .chunked
   complete_ok : x.c.complete = true → x.c.headOnly = false → x.s.fin.isSome = true ∧ x.c.offset = x.s.stored.length
@@ -419,12 +426,12 @@ structure CInv (P : Params) (x : Sys) : Prop extends CCore P x where
 
 theorem cinv_init (P : Params) (s : Srv) (fr : CFr) (ka : Bool) (cr : Option Nat) : CInv P ⟨s, Cli.init fr ka cr⟩ := by
   refine ⟨?_, ?_, ?_, ?_⟩
-  · constructor <;> simp [Cli.init, wireOf]
+  · constructor <;> simp [Cli.init]
   all_goals simp [Cli.init]
 
 theorem cinv_initHead (P : Params) (s : Srv) (ka : Bool) : CInv P ⟨s, Cli.initHead ka⟩ := by
   refine ⟨?_, ?_, ?_, ?_⟩
-  · constructor <;> simp [Cli.initHead, wireOf]
+  · constructor <;> simp [Cli.initHead]
   all_goals simp [Cli.initHead]
 
 
@@ -541,7 +548,7 @@ theorem replyStatus_of_complete {s : Srv} {c : Cli} (hc : c.complete = true) : r
 theorem afterWrite_fields (P : Params) (s : Srv) (c : Cli) :
     (afterWrite P s c).fr = c.fr ∧ (afterWrite P s c).keepalive = c.keepalive ∧ (afterWrite P s c).crLen = c.crLen ∧
     (afterWrite P s c).headOnly = c.headOnly ∧ (afterWrite P s c).offset = c.offset ∧ (afterWrite P s c).pieces = c.pieces ∧
-    (afterWrite P s c).wire = c.wire ∧ (afterWrite P s c).complete = c.complete ∧ (afterWrite P s c).lastChunk = c.lastChunk := by
+    (afterWrite P s c).complete = c.complete ∧ (afterWrite P s c).lastChunk = c.lastChunk := by
   unfold afterWrite
   split <;> simp
 
@@ -557,12 +564,10 @@ theorem socketState_eq_of_crOff (P : Params) (s : Srv) (c : Cli) (h : crOff P c)
     cases hr : replyStatus s c <;> simp_all
 
 theorem ccore_afterWrite {P : Params} {s : Srv} {c : Cli} (h : CCore P ⟨s, c⟩) : CCore P ⟨s, afterWrite P s c⟩ := by
-  obtain ⟨f1, f2, f3, f4, f5, f6, f7, f8, f9⟩ := afterWrite_fields P s c
+  obtain ⟨f1, f2, f3, f4, f5, f6, f8, f9⟩ := afterWrite_fields P s c
   constructor
   · show (afterWrite P s c).offset ≤ _; rw [f5]; exact h.off_le
   · show (afterWrite P s c).pieces.flatten = s.stored.take (afterWrite P s c).offset; rw [f5, f6]; exact h.body_eq
-  · show (afterWrite P s c).wire = wireOf (afterWrite P s c).fr (afterWrite P s c).pieces (afterWrite P s c).lastChunk
-    rw [f7, f1, f6, f9]; exact h.wire_eq
   · show ∀ p ∈ (afterWrite P s c).pieces, _; rw [f6]; exact h.pieces_ok
   · show (afterWrite P s c).lastChunk = true → s.fin = some .ok ∧ (afterWrite P s c).offset = s.stored.length ∧ (afterWrite P s c).fr = .chunked
     rw [f9, f5, f1]; exact h.last_ok
@@ -581,7 +586,7 @@ theorem crOff_afterWrite (P : Params) (s : Srv) (c : Cli) : crOff P (afterWrite 
 theorem cinv_afterWrite {P : Params} {s : Srv} {c : Cli} (wf : WF ⟨s, c⟩) (hs : SInv P s) (h : CCore P ⟨s, c⟩)
     (hnone : c.ended = none) (hrun : c.headOnly = false → c.complete = false → c.lastChunk = false) :
     CInv P ⟨s, afterWrite P s c⟩ := by
-  obtain ⟨f1, f2, f3, f4, f5, f6, f7, f8, f9⟩ := afterWrite_fields P s c
+  obtain ⟨f1, f2, f3, f4, f5, f6, f8, f9⟩ := afterWrite_fields P s c
   have hsound := replyStatus_complete_sound wf hs h.off_le h.complete_last
   have hunpl := replyStatus_unplanned_sound (P := P) wf hs
   have hnf := replyStatus_not_failed (s := s) (c := c) h.complete_ok
@@ -684,8 +689,7 @@ theorem cinv_cliStep {P : Params} {s : Srv} {c : Cli} (wf : WF ⟨s, c⟩) (hs :
           · exact absurd (List.drop_eq_nil_of_le h1) hav
         let p : Bytes := (s.stored.drop c.offset).take (min (max k 1) (max P.reqBuf 1))
         have hplen : p.length = min (min (max k 1) (max P.reqBuf 1)) (s.stored.length - c.offset) := by simp [p, List.length_take]
-        have hcore : CCore P ⟨s, { c with offset := c.offset + p.length, pieces := c.pieces ++ [p],
-                                          wire := c.wire ++ (if c.fr = .chunked then packChunk p else p) }⟩ := by
+        have hcore : CCore P ⟨s, { c with offset := c.offset + p.length, pieces := c.pieces ++ [p] }⟩ := by
           constructor
           · show c.offset + p.length ≤ s.stored.length
             omega
@@ -696,11 +700,6 @@ theorem cinv_cliStep {P : Params} {s : Srv} {c : Cli} (wf : WF ⟨s, c⟩) (hs :
             simp only [List.flatten_cons, List.flatten_nil, List.append_nil]
             congr 1
             exact (take_length_take _ _).symm
-          · show c.wire ++ _ = wireOf c.fr (c.pieces ++ [p]) c.lastChunk
-            have hw := h.wire_eq
-            simp only at hw
-            rw [hlf] at hw ⊢
-            rw [wireOf_snoc, hw]
           · intro q hq
             simp only [List.mem_append, List.mem_singleton] at hq
             rcases hq with hq | hq
@@ -739,15 +738,10 @@ theorem cinv_cliStep {P : Params} {s : Srv} {c : Cli} (wf : WF ⟨s, c⟩) (hs :
               | some v => cases v with
                 | ok => rfl
                 | badLength => exact absurd hf hml'.2
-            have hcore : CCore P ⟨s, { c with complete := true, wire := c.wire ++ lastChunkBytes, lastChunk := true }⟩ := by
+            have hcore : CCore P ⟨s, { c with complete := true, lastChunk := true }⟩ := by
               constructor
               · exact h.off_le
               · exact h.body_eq
-              · show c.wire ++ lastChunkBytes = wireOf c.fr c.pieces true
-                have hw := h.wire_eq
-                simp only at hw
-                rw [hlf, hml'.1] at hw
-                rw [hml'.1, wireOf_last, hw]
               · exact h.pieces_ok
               · intro _; exact ⟨hfok, hlen, hml'.1⟩
               · intro _ _; exact ⟨hfs', hlen⟩
@@ -760,7 +754,6 @@ theorem cinv_cliStep {P : Params} {s : Srv} {c : Cli} (wf : WF ⟨s, c⟩) (hs :
               constructor
               · exact h.off_le
               · exact h.body_eq
-              · exact h.wire_eq
               · exact h.pieces_ok
               · intro hl; simp only at hl; rw [hlf] at hl; simp at hl
               · intro _ _; exact ⟨hfs', hlen⟩
@@ -772,5 +765,83 @@ theorem cinv_cliStep {P : Params} {s : Srv} {c : Cli} (wf : WF ⟨s, c⟩) (hs :
               · intro hh; simp only at hh; rw [hho'] at hh; simp at hh
             refine cinv_afterWrite ?_ hs hcore hnone (fun _ hc => by simp at hc)
             exact ⟨wf.cl_cl, wf.close_ka, wf.head_none⟩
+
+
+/-- a server-side step keeps the client-side invariant -/
+theorem cinv_srvStep {P : Params} {s : Srv} {c : Cli} (hs : SInv P s) (h : CInv P ⟨s, c⟩) (e : SEv) :
+    CInv P ⟨srvStep P s e, c⟩ := by
+  cases hf : s.fin with
+  | some v => rw [srvStep_of_fin P s e (by simp [hf])]; exact h
+  | none =>
+    obtain ⟨t, ht⟩ := srvStep_stored_ext hs e
+    have hl : c.lastChunk = false := by
+      cases hl : c.lastChunk
+      · rfl
+      · have := (h.last_ok hl).1; simp [hf] at this
+    have hc : c.complete = true → c.headOnly = false → False := by
+      intro h1 h2
+      have := (h.complete_ok h1 h2).1; simp [hf] at this
+    have hoff := h.off_le
+    simp only at hoff
+    refine ⟨⟨?_, ?_, h.pieces_ok, ?_, ?_, ?_, h.head_ok⟩, h.running, ?_, h.keep_ok⟩
+    · show c.offset ≤ (srvStep P s e).stored.length
+      rw [ht, List.length_append]; omega
+    · show c.pieces.flatten = (srvStep P s e).stored.take c.offset
+      rw [ht, List.take_append_of_le_length hoff]; exact h.body_eq
+    · intro h1; simp only at h1; rw [hl] at h1; simp at h1
+    · intro h1 h2; exact absurd (hc h1 h2) id
+    · intro h1 h2; exact absurd (hc h1 h2) id
+    · intro he hcr
+      rcases h.ended_ok he hcr with h1 | h1
+      · exact Or.inl h1
+      · simp [hf] at h1
+
+theorem wf_srvStep {P : Params} {s : Srv} {c : Cli} (wf : WF ⟨s, c⟩) (e : SEv) : WF ⟨srvStep P s e, c⟩ := by
+  obtain ⟨h1, h2⟩ := srvStep_static P s e
+  refine ⟨?_, wf.close_ka, wf.head_none⟩
+  intro n hn
+  show (srvStep P s e).fr = .cl n ∧ (srvStep P s e).te = false
+  rw [h1, h2]; exact wf.cl_cl n hn
+
+theorem cliStep_static (P : Params) (s : Srv) (c : Cli) (k : Nat) :
+    (cliStep P s c k).fr = c.fr ∧ (cliStep P s c k).keepalive = c.keepalive ∧ (cliStep P s c k).crLen = c.crLen ∧
+    (cliStep P s c k).headOnly = c.headOnly := by
+  unfold cliStep
+  have ha := fun c' => afterWrite_fields P s c'
+  split
+  · simp
+  · split
+    · exact ⟨(ha _).1, (ha _).2.1, (ha _).2.2.1, (ha _).2.2.2.1⟩
+    · dsimp only
+      split
+      · exact ⟨(ha _).1, (ha _).2.1, (ha _).2.2.1, (ha _).2.2.2.1⟩
+      · split
+        · simp
+        · split
+          · exact ⟨(ha _).1, (ha _).2.1, (ha _).2.2.1, (ha _).2.2.2.1⟩
+          · exact ⟨(ha _).1, (ha _).2.1, (ha _).2.2.1, (ha _).2.2.2.1⟩
+
+theorem wf_cliStep {P : Params} {s : Srv} {c : Cli} (wf : WF ⟨s, c⟩) (k : Nat) : WF ⟨s, cliStep P s c k⟩ := by
+  obtain ⟨h1, h2, _, h4⟩ := cliStep_static P s c k
+  refine ⟨?_, ?_, ?_⟩
+  · intro n hn; simp only at hn; rw [h1] at hn; exact wf.cl_cl n hn
+  · intro hn; simp only at hn ⊢; rw [h1] at hn; rw [h2]; exact wf.close_ka hn
+  · intro hn; simp only at hn ⊢; rw [h4] at hn; rw [h1]; exact wf.head_none hn
+
+/-- everything that holds at every point of every run -/
+structure Good (P : Params) (x : Sys) : Prop where
+  wf : WF x
+  srv : SInv P x.s
+  cli : CInv P x
+
+theorem good_step {P : Params} {x : Sys} (h : Good P x) (e : Ev) : Good P (step P x e) := by
+  cases e with
+  | srv e => exact ⟨wf_srvStep h.wf e, sinv_srvStep h.srv e, cinv_srvStep h.srv h.cli e⟩
+  | pull k => exact ⟨wf_cliStep h.wf k, h.srv, cinv_cliStep h.wf h.srv h.cli k⟩
+
+theorem good_run {P : Params} {x : Sys} (h : Good P x) (evs : List Ev) : Good P (run P x evs) := by
+  induction evs generalizing x with
+  | nil => exact h
+  | cons e es ih => exact ih (good_step h e)
 
 end SquidModel.Relay.Response
